@@ -6,6 +6,7 @@
 //   GMRES(m)   Saad Alg. 6.9 (Arnoldi, modified Gram-Schmidt) with the small least-squares
 //              problem solved by Householder QR (Eigen), not by Givens rotations
 //   FGMRES(m)  Saad Alg. 9.6
+//   LGMRES(m,k) Baker, Jessup, Manteuffel, SIAM J. Matrix Anal. Appl. 26 (2005), dense formulation (see the function)
 //   Richardson x <- x + omega M (b - A x)
 // Inner product convention: dot(x, y) = x^H y.
 #pragma once
@@ -199,6 +200,68 @@ Trace<S> gmres(const Sys<S> &s, const Vec<S> &x0, int m, int K, bool flexible = 
         }
         x = t.x.back();
         if (broke) break;
+    }
+    return t;
+}
+
+// ------------------------------------------------------------------ LGMRES(m, k)  ("loose" GMRES, Baker / Jessup / Manteuffel 2005)
+// Every cycle i minimises the (preconditioned) residual over  x_i + span{ K_j(B, r_i), z_.. }  where the z are up to k
+// normalised corrections ("error approximations") d_{i-1}, d_{i-2}, ... of the previous cycles, appended AFTER the Arnoldi
+// vectors.  The dimension of the search space of a cycle is always m + k: while fewer than k corrections are stored the
+// Krylov part is correspondingly longer (as in the paper).  Dense formulation: W = [v_0 .. v_{p-1}, z ...] (search
+// directions), V orthonormal with  B W_j = V_{j+1} H_j  built by modified Gram-Schmidt (the first column of V is r_i/|r_i|),
+// y = argmin | beta e_1 - H_j y |  by Householder QR,  d = W_j y,  x = x_i + lift(d).
+// Conventions taken from amgcl's code because neither its documentation nor the defining equations fix them:
+//   * the stored vector is d/|d| with d the correction of the PRECONDITIONED unknown (right preconditioning: x = x_i + M d);
+//   * inside a cycle the stored corrections are used oldest first (newest_first = false).  The paper lists them newest
+//     first; the order changes only the iterates whose k cuts into the augmented tail of a cycle with >= 2 stored
+//     corrections, never the iterate at the end of a complete cycle.  newest_first = true gives the other order.
+//   * a correction of norm exactly 0 is not stored.
+template <class S>
+Trace<S> lgmres(const Sys<S> &s, const Vec<S> &x0, int m, int kaug, int K, bool newest_first = false) {
+    typedef typename real_of<S>::type R;
+    Trace<S> t;
+    Vec<S> x = x0;
+    t.x.push_back(x); t.rn.push_back(nrm2(s.res(x)));
+    std::vector<Vec<S>> outer; // stored corrections, oldest first
+    const int mtot = m + kaug;
+    int k = 0;
+    while (k < K) {
+        Vec<S> r = s.res(x);
+        R beta = nrm2(r);
+        if (beta == 0) break;
+        std::vector<Vec<S>> V, W, H;
+        V.push_back(r); for (auto &v : V[0]) v /= S(beta);
+        const int nout = static_cast<int>(outer.size()), narn = mtot - nout;
+        bool broke = false;
+        Vec<S> d;
+        for (int j = 0; j < mtot && k < K; ++j) {
+            Vec<S> z = j < narn ? V[j] : outer[newest_first ? nout - 1 - (j - narn) : j - narn];
+            W.push_back(z);
+            Vec<S> w = s.B(z);
+            Vec<S> h(j + 2, S());
+            for (int i = 0; i <= j; ++i) { h[i] = dot(V[i], w); axpy(-h[i], V[i], w); }
+            R hn = nrm2(w);
+            h[j + 1] = S(hn);
+            H.push_back(h);
+            Vec<S> y = hess_ls<S>(H, beta, j);
+            d.assign(x.size(), S());
+            for (int i = 0; i <= j; ++i) axpy(y[i], W[i], d);
+            Vec<S> xk = x; axpy(S(1), s.lift(d), xk);
+            ++k;
+            t.x.push_back(xk); t.rn.push_back(nrm2(s.res(xk)));
+            if (hn == 0) { broke = true; break; }
+            for (auto &v : w) v /= S(hn);
+            V.push_back(w);
+        }
+        x = t.x.back();
+        if (broke) break;
+        R nd = nrm2(d);
+        if (kaug > 0 && nd > 0) {
+            for (auto &v : d) v /= S(nd);
+            outer.push_back(d);
+            if (static_cast<int>(outer.size()) > kaug) outer.erase(outer.begin());
+        }
     }
     return t;
 }
